@@ -444,8 +444,10 @@ class ExprMixin:
                 yield st, o.int_(a - b)
             elif isinstance(op, ast.Mult):
                 yield st, o.int_(a * b)
-            elif isinstance(op, ast.Mod) and cx.spec is not None:
-                yield st, o.int_(a % b)
+            elif isinstance(op, ast.Mod) and (cx.spec is not None or (z3.is_int_value(z3.simplify(b)) and z3.simplify(b).as_long() > 0)):
+                yield st, o.int_(a % b)        # for a positive divisor SMT-LIB mod is Python's %
+            elif isinstance(op, ast.FloorDiv) and z3.is_int_value(z3.simplify(b)) and z3.simplify(b).as_long() > 0:
+                yield st, o.int_(a / b)        # ... and SMT-LIB div is Python's //
             else:
                 raise Unsupported("int operator")
             return
